@@ -188,6 +188,23 @@ fn case<G: CurveTag>(bytes: &[u8], col: &mut Collector, kmax: usize, force: Opti
         let edits: Vec<(&str, Box<dyn Fn(&mut Instance<G>, &mut IppMirror<G>) -> bool>)> = vec![
             ("P+cQ wrong product", Box::new(move |i, _| { i.P = (i.P.into_group() + i.Q.mul_bigint(d.into_bigint())).into_affine(); true })),
             ("P+G_0", Box::new(|i, _| { i.P = (i.P.into_group() + i.Gv[0].into_group()).into_affine(); true })),
+            ("P+T small-order", Box::new(|i, _| {
+                // a point of small order (cofactor curves only): r * (some curve point outside the subgroup)
+                if G::COFACTOR == 1 { return false; }
+                use ark_serialize::CanonicalDeserialize;
+                for y in 2u64..60 {
+                    let mut b = vec![0u8; G::PT];
+                    b[..8].copy_from_slice(&y.to_le_bytes());
+                    if let Ok(q) = G::deserialize_compressed_unchecked(&b[..]) {
+                        let t = q.mul_bigint(<Fr<G> as PrimeField>::MODULUS);
+                        if !ark_std::Zero::is_zero(&t) {
+                            i.P = (i.P.into_group() + t).into_affine();
+                            return true;
+                        }
+                    }
+                }
+                false
+            })),
             ("a+1", Box::new(|_, m| { m.a += Fr::<G>::one(); true })),
             ("a-1", Box::new(|_, m| { m.a -= Fr::<G>::one(); true })),
             ("b+1", Box::new(|_, m| { m.b += Fr::<G>::one(); true })),
